@@ -90,6 +90,27 @@ def run(prog: Program, rep: Report, tier: str) -> None:
                 rep.check("R11.3", "tracker.Tracker.diffuse", f"size of draw `{short(node)}`", sz is not None and (sz == want or sz == alt), what_bad=f"draw size is {vtext(size) if size is not None else 'absent (a single scalar draw shared by all particles)'}; must be the current number of particles", what_ok="len(X)", loc=fi.loc(node))
                 rep.check("R11.2", "tracker.Tracker.diffuse", f"arguments of `{short(node)}`", not pargs and set(kws) <= {"size"}, what_bad=f"normal() is called with loc/scale arguments {pargs} {kws}", what_ok="standard normal", loc=fi.loc(node))
 
+    # both diffusions on: the horizontal variance must not change (cooperating sites, e.g. a shared cached coefficient)
+    it, fr, draws = update_normal_form(prog, dict(advection=False, diffusion=True, vertdiff=True, vertical_advection=False))
+    for pos, d in (("X", "dx"), ("Y", "dy")):
+        moved, _ = moved_arm(it.objenv.get(f"state.{pos}"), NF.atom(pos))
+        ok, what = False, f"not a normal form: {vtext(moved)[:80]}"
+        if isinstance(moved, NF):
+            disp = moved - NF.atom(pos)
+            xis = [a[0].canon() for a in draws if a[0].canon() in disp.atoms()]
+            if len(xis) == 1:
+                c = disp.coeff(xis[0])
+                ok = (c * c) == 2 * NF.atom("D") * NF.atom("dt") / (NF.atom(d) * NF.atom(d))
+                what = f"coefficient {c}"
+            else:
+                what = f"{len(xis)} draws enter"
+        rep.check("R11.1", fi.qual, f"variance of the {pos} displacement with vertical diffusion also on", ok, what_bad=what + f"; must stay 2*D*dt/{d}^2", what_ok=what, loc=fi.loc())
+    z = unreflected(it.objenv.get("state.Z"))
+    if isinstance(z, NF):
+        disp = z - NF.atom("Z")
+        xis = [a[0].canon() for a in draws if a[0].canon() in disp.atoms()]
+        okz = len(xis) == 1 and (disp.coeff(xis[0]) ** 2) == 2 * NF.atom("Dz") * NF.atom("dt")
+        rep.check("R11.1", fi.qual, "variance of the vertical displacement with horizontal diffusion also on", okz, what_bad=f"vertical displacement {disp}", what_ok="2*Dz*dt", loc=fi.loc())
     # vertical
     flags = dict(advection=False, diffusion=False, vertdiff=True, vertical_advection=False)
     it, fr, draws = update_normal_form(prog, flags)
@@ -149,6 +170,10 @@ AUDIT = [
     Mut("drift", T, "            U += Udiff\n", "            U += Udiff + 0.01\n", rule="R11.2"),
     Mut("always-draw", T, "        if self.diffusion:\n            Udiff, Vdiff", "        if True:\n            Udiff, Vdiff", rule="R11.4"),
     Mut("diffusion-added-twice", T, "            V += Vdiff\n", "            V += 2 * Vdiff\n", rule="R11.1"),
+    Mut("shared-cached-stddev", T, "        self.rng = np.random.default_rng()\n", "        self.rng = np.random.default_rng()\n        if self.diffusion:\n            self.stddev = (2 * self.D / self.dt) ** 0.5\n        if self.vertdiff:\n            self.stddev = (2 * self.Dz / self.dt) ** 0.5\n", rule="R11.1",
+        more=((T, "        stddev = (2 * self.D / self.dt) ** 0.5\n        U = stddev", "        stddev = self.stddev\n        U = stddev"), (T, "        stddev = (2 * self.Dz / self.dt) ** 0.5\n        W:", "        stddev = self.stddev\n        W:"))),
+    Mut("benign-cached-stddev", T, "        self.rng = np.random.default_rng()\n", "        self.rng = np.random.default_rng()\n        self.stddev_h = (2 * self.D / self.dt) ** 0.5\n", expect="silent",
+        more=((T, "        stddev = (2 * self.D / self.dt) ** 0.5\n        U = stddev", "        stddev = self.stddev_h\n        U = stddev"),)),
     Mut("benign-sqrt", T, "stddev = (2 * self.D / self.dt) ** 0.5", "stddev = np.sqrt(2 * self.D / self.dt)", expect="silent"),
     Mut("benign-seed", T, "self.rng = np.random.default_rng()", "self.rng = np.random.default_rng(12345)", expect="silent"),
     Mut("benign-size-lenY", T, "Udiff, Vdiff = self.diffuse(num_particles=len(X))", "Udiff, Vdiff = self.diffuse(num_particles=len(Y))", expect="silent"),
